@@ -325,6 +325,7 @@ inline std::string build_g3(const Plan& plan, int* n_steps = nullptr, std::strin
 //   ko kind from to third v   one observation; consecutive observations of the same station share one <obs from=..>
 //                             kind 0 direction, 1 distance, 2 angle, 3 s-distance, 4 z-angle, 5 azimuth
 //   kh from to v              one <height-differences> cluster with one <dh>
+//   kv from to v              one <vectors> cluster with one <vec> and its 3x3 covariance matrix (diagonal or full)
 struct KPt { double x, y, z; };
 inline KPt gkf_point(int i)
 {
@@ -371,6 +372,14 @@ inline std::string build_gkf(const Plan& plan, int* n_steps = nullptr, std::stri
         default: d += std::string("<azimuth to=\"") + ID[b] + "\" val=\"" + num(gon(bearing(B)) + e * 0.01, 5) + "\"" + sd + " />\n";
       }
       n++; if (shape) *shape += fmt("o%d,", k);
+    } else if (s.op == "kv") {
+      close_obs();
+      int a = (int)(s.arg(0) % 8), b = (int)(s.arg(1) % 8); long long v = s.arg(2);
+      KPt A = gkf_point(a), B = gkf_point(b); double e = 0.001 * (double)(v % 5 - 2);
+      d += std::string("<vectors>\n<vec from=\"") + ID[a] + "\" to=\"" + ID[b] + "\" dx=\"" + num(B.x - A.x + e, 4) + "\" dy=\"" + num(B.y - A.y - e, 4) + "\" dz=\"" + num(B.z - A.z + e, 4) + "\" />\n";
+      d += (v / 5) % 2 ? "<cov-mat dim=\"3\" band=\"2\"> 9 1 0.5 9 1 16 </cov-mat>\n" : "<cov-mat dim=\"3\" band=\"0\"> 9 9 16 </cov-mat>\n";
+      d += "</vectors>\n";
+      n++; if (shape) *shape += "v,";
     } else if (s.op == "kh") {
       close_obs();
       int a = (int)(s.arg(0) % 8), b = (int)(s.arg(1) % 8); long long v = s.arg(2);
@@ -382,6 +391,33 @@ inline std::string build_gkf(const Plan& plan, int* n_steps = nullptr, std::stri
   d += "</points-observations>\n</network>\n</gama-local>\n";
   if (n_steps) *n_steps = n;
   return d;
+}
+
+
+// A network that gama-local can adjust: three fixed points, one or two points to be determined with or without given
+// coordinates, enough observations of mixed kinds to determine them, a few more at random, sometimes levelling and a
+// vector.  Used as a document source by sim_restart (C13) and sim_hist (C04).
+inline std::string tidy_network(sim::Rng& g)
+{
+  using sim::Step;
+    sim::Plan q; auto stk = [&](const char* op, std::initializer_list<long long> a) { Step s; s.op = op; s.a = a; q.steps.push_back(s); };
+    int nnew = (int)g.range(1, 2), np = 3 + nnew;
+    for (int i = 0; i < 3; i++) stk("kp", {i, 0, 0});
+    for (int i = 3; i < np; i++) stk("kp", {i, g.chance(1, 4) ? 4 : 1, g.chance(1, 2) ? 0 : 1});
+    struct O { long long kind, from, to, third, v; }; std::vector<O> obs;
+    for (int s = 0; s < 3; s++) obs.push_back({0, s, (s + 1) % 3, 0, (long long)g.below(100000)});       // orientation of every fixed station
+    for (int P = 3; P < np; P++) {
+      for (int s = 0; s < 2; s++) { obs.push_back({0, s, P, 0, (long long)g.below(100000)}); obs.push_back({g.chance(1, 2) ? 1 : 3, s, P, 0, (long long)g.below(100000)}); }
+      obs.push_back({4, 0, P, 0, (long long)g.below(100000)}); obs.push_back({4, 1, P, 0, (long long)g.below(100000)});
+      obs.push_back({2, P, 0, 1, (long long)g.below(100000)});
+    }
+    int extra = (int)g.range(0, 5);
+    for (int i = 0; i < extra; i++) { long long a = (long long)g.below(np), b = (long long)g.below(np), c = (long long)g.below(np); if (a == b) b = (b + 1) % np; if (c == a || c == b) c = (c + 1) % np; if (c == a || c == b) c = (c + 1) % np; obs.push_back({(long long)g.below(6), a, b, c, (long long)g.below(100000)}); }
+    std::stable_sort(obs.begin(), obs.end(), [](const O& x, const O& y) { return x.from < y.from; });
+    for (auto& o : obs) stk("ko", {o.kind, o.from, o.to, o.third, o.v});
+    for (int P = 3; P < np; P++) if (g.chance(1, 2)) stk("kh", {(long long)g.below(3), P, (long long)g.below(1000)});
+    if (g.chance(1, 3)) stk("kv", {(long long)g.below(3), 3, (long long)g.below(1000)});
+    return build_gkf(q);
 }
 
 // ----------------------------------------------------------- enumeration -----
